@@ -28,7 +28,7 @@ from acnportal.acnsim.models import Battery, Linear2StageBattery
 from acnportal.acnsim.models.battery import batt_cap_fn
 from acnportal.acndata.utils import http_date
 
-from mc.core import Acc
+from mc.core import Acc, guard
 from mc.transport import FakeServer, owned_requests
 from mc.props.c14 import ode_energy
 
@@ -237,6 +237,7 @@ def run_doc(item, only=None):
                     rep("doc:exception:ValueError:%s" % bpk, "conversion raised %r" % (exc,), repr(exc), None, ctx)
                     continue
                 except Exception as exc:
+                    guard(exc)
                     if bpk == "l2-fit" and stay_expected < 1:
                         continue
                     rep("doc:exception:%s:%s" % (type(exc).__name__, bpk), "conversion raised %r" % (exc,), repr(exc), None, ctx)
@@ -265,6 +266,7 @@ def run_doc(item, only=None):
                             q = None
                             server2 = FakeServer(pages)
                         except Exception as exc:
+                            guard(exc)
                             rep("doc:e2e:exception:%s" % type(exc).__name__, "get_evs raised %r" % (exc,), repr(exc), None, {"e2e": True})
                             continue
                 ctx = {"e2e": True, "zone": zone, "day": list(day), "period": period}
@@ -372,6 +374,7 @@ def run_sample(item, only=None):
                     evs = StochasticEvents._convert_ev_matrix(np.array(matrix, dtype=float), period, V, pmax, max_len, BP[bpk], ff)
             results = {ev.session_id: ev for ev in evs}
         except Exception as exc:
+            guard(exc)
             whole_failed = exc
         for ridx, (a, du, en) in enumerate(matrix):
             if a < 0 or du <= 0 or en <= 0:
@@ -397,6 +400,7 @@ def run_sample(item, only=None):
                     rep("sample:exception:ValueError:%s" % bpk, "converting sample (arrival %r h, duration %r h, %r kWh) raised %r although a %s-period stay can take the request" % (a, du, en, exc, stay), repr(exc), None, ctx)
                     continue
                 except Exception as exc:
+                    guard(exc)
                     rep("sample:exception:%s:%s" % (type(exc).__name__, bpk), "converting sample %r raised %r" % ([a, du, en], exc), repr(exc), None, ctx)
                     continue
             if ev.arrival != exp_a:
@@ -491,6 +495,7 @@ def run_fit(item, only=None):
                 stats["out"].add(("fit", "infeasible"))
                 continue
             except Exception as exc:
+                guard(exc)
                 rep("fit:exception:%s" % type(exc).__name__, "batt_cap_fn(%r, %r, %r, %r) raised %r" % (en, stay, V, period, exc), repr(exc), None, ctx)
                 continue
             cap, init = float(cap), float(init)
